@@ -45,8 +45,14 @@ pub fn strategy() -> impl Strategy<Value = Case> {
         vec((any::<u16>(), any::<u16>()), 0..=4),
     )
         .prop_map(|(raw, state_k, rc, mode_k, picks, ncmd, undef)| {
-            let config = gen::build_config(&raw, CycleMode::Acyclic);
+            let mut config = gen::build_config(&raw, CycleMode::Acyclic);
             let n = config.targets.len();
+            // some targets keep their commands in a directory of their own choosing
+            for (i, t) in config.targets.iter_mut().enumerate() {
+                if raw.perm.get(i).copied().unwrap_or(0) % 3 == 0 {
+                    t.commands_path = Some(format!("tools/cmds-{}", i));
+                }
+            }
             let commands: Vec<String> = (0..ncmd).map(|i| format!("c{}", i)).collect();
             let state = match state_k {
                 0 => State::NoCheckpoint,
@@ -291,6 +297,19 @@ pub fn check(case: &Case, w: usize) -> CheckResult {
             }
         }
     }
+    // every started process is the file the target's own configuration resolves to
+    for t in &traces {
+        let (cmd, target) = bb::trace_key(&env, t);
+        if cfg.target(&target).is_some() {
+            let want = bb::simple_cmd_file(cfg, &target, &cmd);
+            if env.rel(&t.exe) != want {
+                return viol(
+                    "c05.wrong.executable",
+                    format!("({}, {}) ran {:?}, but the target's command file is {:?}", cmd, target, env.rel(&t.exe), want),
+                );
+            }
+        }
+    }
     // nothing outside the selection was started
     for (k, v) in &by_key {
         if !selected.contains(&k.1) || !case.commands.contains(&k.0) {
@@ -323,6 +342,7 @@ pub fn check(case: &Case, w: usize) -> CheckResult {
         .class_if(selected.is_empty(), "empty-selection")
         .class_if(bigger_closure, "closure-larger")
         .class_if(!case.undefined.is_empty(), "some-undefined")
+        .class_if(cfg.targets.iter().any(|t| t.commands_path.is_some()), "custom-commands-dir")
         .class_if(selected.len() > 16, "selection>16")
         .class_if(selected.len() > 32, "selection>32")
         .class_if(selected.len() > 64, "selection>64")
